@@ -1,6 +1,6 @@
 (** Pins for C16: the statements written out, so that no theorem is weakened quietly. *)
 From TucModel Require Import Base.Bytes Base.ListX Model.Bounds Model.Scan Model.Regex Model.Opt Model.CutStr
-     Spec.RegexLang Proofs.C06 Proofs.ScanSplit Proofs.C12 Proofs.C16 Proofs.C16Sem Properties.C16.
+     Spec.RegexLang Spec.Fields Proofs.C06 Proofs.ScanSplit Proofs.C12 Proofs.C16 Proofs.C16Sem Proofs.C16Replace Properties.C16.
 
 
 Check C16_engine_is_sound :
@@ -38,3 +38,20 @@ Check C16_no_index_out_of_range :
     line <> [] -> wf_ms 0 ms (length line) -> Forall item_nz bs ->
     out_loop o line (fields_of_matches ms line) bs <> RPanic.
 Print Assumptions C16_no_index_out_of_range.
+
+Check C16_replacement_is_the_literal_text :
+  forall (line rep : bytes) (ms : list mtch),
+    replace_matches line ms rep = intercalate rep (pieces line (gaps_from 0 ms (length line))).
+Print Assumptions C16_replacement_is_the_literal_text.
+
+Check C16_selected_text_is_rejoined_with_R :
+  forall (o : opt) (x : rx) (nd text : bytes) (ms : list mtch),
+    o_btype o <> BChars -> o_replace o = Some nd -> o_regex o = Some x -> o_compress o = false ->
+    rx_normal x text = Some ms ->
+    maybe_replace o text = Some (intercalate nd (pieces text (gaps_from 0 ms (length text)))).
+Print Assumptions C16_selected_text_is_rejoined_with_R.
+
+Check C16_after_compress_the_text_is_printed_as_it_is :
+  forall (o : opt) (x : rx) (nd text : bytes),
+    o_replace o = Some nd -> o_regex o = Some x -> o_compress o = true -> maybe_replace o text = Some text.
+Print Assumptions C16_after_compress_the_text_is_printed_as_it_is.
